@@ -25,7 +25,7 @@ def run(ctx):
             jobs += SL.job(b, name, v, pb, eb, shards=4)
             jobs += SL.job(b, name, v, 1, 0, extra=["--plain", "1", "--horizon", "60000"], shards=4)   # fine tier: plain accesses are scheduling points too
     ctx.run_jobs(jobs, parallel=16)
-    cov = SL.coverage(ctx, "concurrent: 3 threads owning distinct handles to one payload created by the main thread (String: copy/drop, append, C-string view, write through "
+    cov = SL.coverage(ctx, "concurrent: 3 threads owning distinct handles to one payload created by the main thread (String: copy/drop, append, clear, attach, join, assignment from a counted and from an uncounted String, C-string view, write through "
                            "char*, reassign; Variant holding a list: copy/drop, read, mutable access + append; RefCount::Ptr: copy/assign/drop, assign null, swap; "
                            "Xml::Variant: copy/assign, read, toElement() mutation); every schedule with <= %d preemptions at volatile/atomic/thread operations, and every "
                            "schedule with <= 1 preemption when every plain memory access is a scheduling point as well; oracle: schedule-independent final contents, "
